@@ -386,37 +386,51 @@ def timestampParse (st : Settings) (negative : Bool) (s : String) : Except PyErr
 
 inductive PwfOutcome | bad | res (r : Except PyErr (Option (ADT × Period)))
 
-def parseWithFormats (st : Settings) (s : String) (fmts : List String) : PwfOutcome := Id.run do
-  for f in fmts do
-    match strptimeC s.toList f.toList true with
-    | .bad => return .bad
-    | .err e => if caughtBy Gen.exceptParseWithFormats e then continue else return .res (.error e)
-    | .ok t =>
-      if Gen.pwfChecksStrict then
-        match checkStrict (psettingsOf st st.dateOrder 0) (missingParts f) with
-        | .error _ => continue
-        | .ok _ => pure ()
-      let missingMonth := !(hasSub f "%m" || hasSub f "%b" || hasSub f "%B")
-      let missingDay := !hasSub f "%d"
-      let r : Except PyErr (ADT × Period) := do
-        let mut t := t
-        let mut period := Period.day
-        if missingMonth && missingDay then
-          period := .year; t ← setMonth st.preferMonth t st.today.mo; t ← setDay st.preferDay t st.today.d
-        else if missingMonth then
-          period := .year; t ← setMonth st.preferMonth t st.today.mo
-        else if missingDay then
-          period := .month; t ← setDay st.preferDay t st.today.d
-        if !(hasSub f "%y" || hasSub f "%Y") then t ← t.replaceYear st.today.y
-        let x ← applyTzFromSettings st t
-        return (x, period)
-      match r with
-      | .ok v => return .res (.ok (some v))
-      | .error e =>
-        -- a second `except` in parse_with_formats (after the repair) guards the zone application
-        if (Gen.exceptParseWithFormats.drop 1).any (fun names => names.any (fun c => classCatches c e)) then continue
-        else return .res (.error e)
-  return .res (.ok none)
+/-- outcome of one format of `parse_with_formats` -/
+inductive PwfStep | bad | skip | err (e : PyErr) | hit (v : ADT × Period)
+
+/-- completion of the parts a format cannot express, then the zone settings -/
+def pwfComplete (st : Settings) (f : String) (t : DT) : Except PyErr (ADT × Period) := do
+  let missingMonth := !(hasSub f "%m" || hasSub f "%b" || hasSub f "%B")
+  let missingDay := !hasSub f "%d"
+  let mut t := t
+  let mut period := Period.day
+  if missingMonth && missingDay then
+    period := .year; t ← setMonth st.preferMonth t st.today.mo; t ← setDay st.preferDay t st.today.d
+  else if missingMonth then
+    period := .year; t ← setMonth st.preferMonth t st.today.mo
+  else if missingDay then
+    period := .month; t ← setDay st.preferDay t st.today.d
+  if !(hasSub f "%y" || hasSub f "%Y") then t ← t.replaceYear st.today.y
+  let x ← applyTzFromSettings st t
+  return (x, period)
+
+/-- strictness as `parse_with_formats` applies it (only if the source calls `_check_strict_parsing` there) -/
+def pwfStrictOk (st : Settings) (f : String) : Bool :=
+  if Gen.pwfChecksStrict then
+    (match checkStrict (psettingsOf st st.dateOrder 0) (missingParts f) with | .ok _ => true | .error _ => false)
+  else true
+
+def pwfOne (st : Settings) (s : String) (f : String) : PwfStep :=
+  match strptimeC s.toList f.toList true with
+  | .bad => .bad
+  | .err e => if caughtBy Gen.exceptParseWithFormats e then .skip else .err e
+  | .ok t =>
+    if !pwfStrictOk st f then .skip else
+    match pwfComplete st f t with
+    | .ok v => .hit v
+    | .error e =>
+      -- a second `except` in parse_with_formats (after the repair) guards the zone application
+      if (Gen.exceptParseWithFormats.drop 1).any (fun names => names.any (fun c => classCatches c e)) then .skip else .err e
+
+def parseWithFormats (st : Settings) (s : String) : List String → PwfOutcome
+  | [] => .res (.ok none)
+  | f :: fs =>
+    match pwfOne st s f with
+    | .bad => .bad
+    | .skip => parseWithFormats st s fs
+    | .err e => .res (.error e)
+    | .hit v => .res (.ok (some v))
 
 -- ---------------- orchestrator
 structure LocEntry where
